@@ -1,7 +1,124 @@
-import ScVerif.Base.Line
-/-! Driver handler for C04 (stub: replaced by the property's owner). -/
-namespace ScVerif.C04
+import ScVerif.C01.Drv
+import ScVerif.C04.Pull
+/-!
+Driver handler for C04 (stateful): a C01 resource plus the open backpressured subscriptions.
 
-def handle (_toks : List String) : String := "!bad-op"
+```
+newc|newv <C01 config> [eqv=<equal|sameA>]             -> ok
+sub name=<k> [rm=<mask>] [uo]                          -> seed=[…]
+unsub name=<k>                                         -> ok
+upd|add|del|vset … (as C01)                            -> val=… err=… | k1=[delivered…] k2=[…]
+```
+-/
+namespace ScVerif.C04
+open ScVerif.C01 ScVerif.Line
+
+def namedEqv : String → Option (Option Msg → Option Msg → Bool)
+  | "equal" => some (fun x y => decide (x = y))
+  | "sameA" => some (fun x y => optA x == optA y)
+  | _ => none
+
+structure Sub where
+  name : String
+  opts : SubOpts Mask
+  last : Option Msg   -- Value.Pull's `last`
+
+inductive Res
+  | none
+  | coll (cfg : FCfg) (s : CState Msg (List Nat))
+  | val (cfg : FCfg) (s : VState Msg)
+
+structure DrvState where
+  res : Res := .none
+  eqv : Eqv Msg := none
+  subs : List Sub := []
+
+def showVDeliv (d : VDeliv Msg) : String := s!"{showMsg d.value}|{d.time}|{showFlags d.seed d.lastSeed}"
+
+def parseSubOpts? (kv : KV) : Option (SubOpts Mask) := do
+  let rm ← optKey kv "rm" parseMask?
+  pure { readMask := rm, updatesOnly := kvHas kv "uo" }
+
+/-- deliver the bus events of one collection write to every subscription -/
+def deliverC (cfg : FCfg) (eqv : Eqv Msg) (subs : List Sub) (evs : List (CEvent Msg)) : String :=
+  " ".intercalate (subs.map (fun sb =>
+    s!"{sb.name}={showList ((evs.filterMap (collForward cfg eqv sb.opts)).map showCEvent)}"))
+
+/-- deliver the bus events of one value write; returns the answer and the subscriptions with their
+updated `last` -/
+def deliverV (cfg : FCfg) (eqv : Eqv Msg) (subs : List Sub) (evs : List (VEvent Msg)) : String × List Sub :=
+  let stepSub (sb : Sub) : String × Sub :=
+    let r := evs.foldl (fun (acc : List (VDeliv Msg) × Option Msg) e =>
+      match valForward cfg eqv sb.opts acc.2 e with
+      | (some d, l) => (acc.1 ++ [d], l)
+      | (none, l) => (acc.1, l)) ([], sb.last)
+    (s!"{sb.name}={showList (r.1.map showVDeliv)}", { sb with last := r.2 })
+  let rs := subs.map stepSub
+  (" ".intercalate (rs.map (·.1)), rs.map (·.2))
+
+def handleOpt (st : DrvState) (toks : List String) : Option (DrvState × String) :=
+  match toks with
+  | [] => none
+  | op :: rest => do
+    let kv ← parseKV rest
+    match op, st.res with
+    | "newc", _ =>
+      let cfg ← parseCfg? kv
+      let rng ← parseRng? ((kvGet kv "rng").getD "")
+      let init ← parseInit? ((kvGet kv "init").getD "")
+      let eqv ← optKey kv "eqv" namedEqv
+      pure ({ res := .coll cfg (Coll.init cfg init rng), eqv := eqv, subs := [] }, "ok")
+    | "newv", _ =>
+      let cfg ← parseCfg? kv
+      let init ← optKey kv "init" parseMsg?
+      let eqv ← optKey kv "eqv" namedEqv
+      pure ({ res := .val cfg (Value.init cfg init), eqv := eqv, subs := [] }, "ok")
+    | "sub", .coll cfg s =>
+      let name ← kvGet kv "name"
+      let o ← parseSubOpts? kv
+      pure ({ st with subs := st.subs ++ [{ name := name, opts := o, last := none }] },
+            "seed=" ++ showList ((collSeed cfg s o).map showCEvent))
+    | "sub", .val cfg s =>
+      let name ← kvGet kv "name"
+      let o ← parseSubOpts? kv
+      let sd := valSeed cfg s o
+      pure ({ st with subs := st.subs ++ [{ name := name, opts := o, last := sd.2 }] },
+            "seed=" ++ showList (sd.1.map showVDeliv))
+    | "unsub", _ =>
+      let name ← kvGet kv "name"
+      pure ({ st with subs := st.subs.filter (·.name ≠ name) }, "ok")
+    | "upd", .coll cfg s =>
+      let id ← kvGet kv "id"
+      let msg ← (kvGet kv "msg").bind parseMsg?
+      let wr ← parseWriteReq? kv
+      let (o, s') := Coll.update cfg s id msg wr
+      pure ({ st with res := .coll cfg s' },
+            s!"val={showOptMsg o.val} err={showErr o.err} | " ++ deliverC cfg st.eqv st.subs o.events)
+    | "add", .coll cfg s =>
+      let id ← kvGet kv "id"
+      let msg ← (kvGet kv "msg").bind parseMsg?
+      let wr ← parseWriteReq? kv
+      let (o, s') := Coll.add cfg s id msg wr
+      pure ({ st with res := .coll cfg s' },
+            s!"val={showOptMsg o.val} err={showErr o.err} | " ++ deliverC cfg st.eqv st.subs o.events)
+    | "del", .coll cfg s =>
+      let id ← kvGet kv "id"
+      let wr ← parseWriteReq? kv
+      let (o, s') := Coll.delete cfg s id wr
+      pure ({ st with res := .coll cfg s' },
+            s!"val={showOptMsg o.val} err={showErr o.err} | " ++ deliverC cfg st.eqv st.subs o.events)
+    | "vset", .val cfg s =>
+      let msg ← (kvGet kv "msg").bind parseMsg?
+      let wr ← parseWriteReq? kv
+      let (o, s') := Value.set cfg s msg wr
+      let (ans, subs') := deliverV cfg st.eqv st.subs o.events
+      pure ({ st with res := .val cfg s', subs := subs' },
+            s!"val={showOptMsg o.val} err={showErr o.err} | " ++ ans)
+    | _, _ => none
+
+def handleS (st : DrvState) (toks : List String) : DrvState × String :=
+  match handleOpt st toks with
+  | some r => r
+  | none => (st, "!bad-op")
 
 end ScVerif.C04
